@@ -198,7 +198,7 @@ def nofiles(b, sym):
             b.require(r.exit == 0, "exit-code", "unchanged tree without files: %s exits %s (%s), expected 0" % (cmd, r.exit, r.exc))
 
 
-def harnesses(tier):
+def _harnesses(tier):
     out = ["histories with rename records (C17)", "new empty directories", "symlinks", "more than two generations"]
     return [
         Harness("c03-u1", scenario("u1", tier), frontier=5, budget_s=1500,
@@ -214,3 +214,8 @@ def harnesses(tier):
         Harness("c03-nofiles", nofiles, frontier=2, budget_s=300, what="trees without any file / only file deleted",
                 bounds={"tree": "R/z/ (+R/y/yy/) or R/only.txt"}, outside=[]),
     ]
+
+
+def harnesses(tier):
+    from . import tour
+    return list(_harnesses(tier)) + tour.harnesses(tier, "C03")
